@@ -1,12 +1,155 @@
 /- Driver operations of property C08 (ops are named "c08.<name>"). Core + Lean.Data.Json only. -/
 import Reamber.Util.Json
+import Reamber.Model.Convert
+import Reamber.Spec.Convert
+import Reamber.Generated.Converters
 
 open Lean Reamber.J
 
 namespace Reamber.C08
+open Reamber.Convert
 
-def handle (op : String) (_j : Json) : Except String Json :=
+def cellOfJson (j : Json) : Except String Cell :=
+  match j with
+  | Json.null => .ok .nan
+  | Json.str s => .ok (.str s)
+  | Json.bool b => .ok (.bool b)
+  | Json.arr _ => do .ok (.num (← ratOf? j))
+  | Json.num _ => do .ok (.num (← ratOf? j))
+  | Json.obj _ => do .ok (.other (← getStr j "o"))
+
+def cellToJson : Cell → Json
+  | .nan => Json.null
+  | .num q => ratToJson q
+  | .str s => Json.str s
+  | .bool b => Json.bool b
+  | .other t => obj [("o", Json.str t)]
+
+def pairOf? {α} (f : Json → Except String α) (j : Json) : Except String (String × α) :=
+  match j with
+  | Json.arr #[k, v] => do .ok (← strOf? k, ← f v)
+  | _ => .error s!"pair expected: {j}"
+
+def pairToJson {α} (f : α → Json) (p : String × α) : Json := Json.arr #[Json.str p.1, f p.2]
+
+def frameOfJson (j : Json) : Except String Frame := do
+  let idx ← getArr intOf? j "index"
+  let cols ← getArr (pairOf? (arrOf? cellOfJson)) j "cols"
+  .ok ⟨idx, cols⟩
+
+def frameToJson (f : Frame) : Json :=
+  obj [("index", listToJson intToJson f.index), ("cols", listToJson (pairToJson (listToJson cellToJson)) f.cols)]
+
+def kvOfJson (j : Json) : Except String (List (String × String)) := arrOf? (pairOf? strOf?) j
+def kvToJson (l : List (String × String)) : Json := listToJson (pairToJson Json.str) l
+
+def srcMapOfJson (j : Json) : Except String SrcMap := do
+  let lists ← getArr (pairOf? frameOfJson) j "lists"
+  let me ← kvOfJson (← field j "meta")
+  let lvl ← getStr j "level"
+  .ok ⟨lists, me, lvl⟩
+
+def srcOfJson (j : Json) : Except String Src := do
+  let me ← kvOfJson (← field j "meta")
+  let maps ← getArr srcMapOfJson j "maps"
+  .ok ⟨me, maps⟩
+
+def chartOfJson (j : Json) : Except String TChart := do
+  let h ← frameOfJson (← field j "hits")
+  let l ← frameOfJson (← field j "holds")
+  let b ← frameOfJson (← field j "bpms")
+  let s ← optOf? frameOfJson (fieldD j "svs" Json.null)
+  let me ← kvOfJson (← field j "meta")
+  .ok ⟨h, l, b, s, me⟩
+
+def chartToJson (t : TChart) : Json :=
+  obj [("hits", frameToJson t.hits), ("holds", frameToJson t.holds), ("bpms", frameToJson t.bpms),
+       ("svs", optToJson frameToJson t.svs), ("meta", kvToJson t.attrs)]
+
+def groupOfJson (j : Json) : Except String TGroup := do
+  let sm ← kvOfJson (← field j "set_meta")
+  let cs ← getArr chartOfJson j "charts"
+  .ok ⟨sm, cs⟩
+
+def groupToJson (g : TGroup) : Json := obj [("set_meta", kvToJson g.setMeta), ("charts", listToJson chartToJson g.charts)]
+
+def outOfJson (j : Json) : Except String Out := do
+  let il ← getBool j "is_list"
+  let gs ← getArr groupOfJson j "groups"
+  .ok ⟨il, gs⟩
+
+def outToJson (o : Out) : Json := obj [("is_list", Json.bool o.isList), ("groups", listToJson groupToJson o.groups)]
+
+def resToJson {α} (f : α → Json) : Except Err α → Json
+  | .ok v => okJson (f v)
+  | .error e => errJson e.toString
+
+def mapFromOfJson (j : Json) : Except String MapFrom :=
+  match j with
+  | Json.str s => .ok (.attr s)
+  | _ => do
+    let kind ← getStr j "kind"
+    match kind with
+    | "series" => .ok (.seriesStr (← getStr j "list") (← getStr j "col"))
+    | "array" => .ok (.arrayStr (← getStr j "list") (← getStr j "col"))
+    | _ => .ok (.opaque kind)
+
+def tables : Tables := ⟨Generated.listClasses, Generated.mapClasses⟩
+
+def findConv (name : String) : Except String Conv :=
+  match Generated.converters.find? (·.name == name) with
+  | some c => .ok c
+  | none => .error s!"unknown converter {name}"
+
+def verdictToJson (v : Verdict) (unt : Bool) : Json :=
+  obj [("one_per", Json.bool v.onePer), ("content", Json.bool v.content), ("svs", Json.bool v.svs),
+       ("fields", Json.bool v.fields), ("meta", Json.bool v.metas), ("untouched", Json.bool unt)]
+
+def handle (op : String) (j : Json) : Except String Json := do
   match op with
+  | "c08.convert" =>
+    let c ← findConv (← getStr j "conv")
+    let src ← srcOfJson (← field j "src")
+    let k ← getInt j "k"
+    .ok (resToJson outToJson (convert tables c src k))
+  | "c08.spec" =>
+    let c ← findConv (← getStr j "conv")
+    let src ← srcOfJson (← field j "src")
+    let after ← srcOfJson (← field j "src_after")
+    let k ← getInt j "k"
+    let out ← outOfJson (← field j "out")
+    .ok (okJson (verdictToJson (specAll tables c.srcGame c.tgtGame c.tgtMapClass src k out) (untouched src after)))
+  | "c08.dom" =>
+    let c ← findConv (← getStr j "conv")
+    let src ← srcOfJson (← field j "src")
+    .ok (okJson (obj [("labels_free", Json.bool (labelsFree c)),
+                      ("fresh", Json.bool (src.maps.all freshLabels)),
+                      ("list_default", Json.bool (tgtHasListDefault tables c)),
+                      ("static_ok", Json.bool (staticOk tables c)),
+                      ("shift_default", optToJson intToJson c.shiftDefault),
+                      ("has_shift", Json.bool c.shiftParam.isSome)]))
+  | "c08.cast" =>
+    let lists ← getArr (pairOf? frameOfJson) j "lists"
+    let srcName ← getStr j "src"
+    let cls ← getStr j "cls"
+    let mapping ← getArr (pairOf? mapFromOfJson) j "mapping"
+    match lists.lookup srcName, findClass Generated.listClasses cls with
+    | some f, some lc => .ok (resToJson frameToJson (cast lists f (schemaOf lc) mapping))
+    | _, _ => .error "c08.cast: unknown list or class"
+  | "c08.cast_spec" =>
+    -- the rows of `out` over `ks` are those of `src`, and `out` has exactly the declared fields without NaN
+    let src ← frameOfJson (← field j "src")
+    let out ← frameOfJson (← field j "out")
+    let cls ← getStr j "cls"
+    let ks ← getArr strOf? j "keys"
+    match findClass Generated.listClasses cls with
+    | some lc => .ok (okJson (obj [("rows", Json.bool (projRows out ks == projRows src ks && (projRows src ks).isSome)),
+                                   ("fields", Json.bool (frameFieldsOk lc out))]))
+    | none => .error "c08.cast_spec: unknown class"
+  | "c08.table" =>
+    .ok (okJson (listToJson (fun (c : Conv) => obj [("name", Json.str c.name), ("src", Json.str c.srcGame),
+      ("tgt", Json.str c.tgtGame), ("shift_default", optToJson intToJson c.shiftDefault),
+      ("has_shift", Json.bool c.shiftParam.isSome), ("static_ok", Json.bool (staticOk tables c))]) Generated.converters))
   | _ => .error s!"unknown op {op}"
 
 end Reamber.C08
